@@ -142,6 +142,7 @@ type Exec struct {
 	symByVal   map[int64]string        // value -> SMT constant, for array types whose length is such a constant
 	synth      map[string]*types.Var
 	ghostVals  map[string]Term
+	memReads   map[string]Term // non-nil while the body of an opaque spec is expanded: the memories it reads
 	paramObjs  []*types.Var
 	epochs     int
 }
@@ -334,6 +335,9 @@ func (x *Exec) typeInv(st *State, v Term) string {
 // ---- memory ----
 
 func (x *Exec) memTerm(st *State, key, sort string) Term {
+	if x.memReads != nil {
+		defer func() { x.memReads[key] = st.mem[key] }()
+	}
 	if t, ok := st.mem[key]; ok {
 		return t
 	}
